@@ -1072,3 +1072,12 @@ Proof.
   - destruct (nth_skips t alt s n l Ok Ho E) as (A & B & C & D & _).
     rewrite A, (size_hint_exact t alt _ _ B D). f_equal. apply IH; auto.
 Qed.
+
+Lemma slice_iter_is_loads t alt buf :
+  len_ok buf ->
+  exists l, iter_list t alt (iter_new buf) = Some l /\
+            map Some l = map (load t alt buf) (range 0 (pixels_total t (buf_len buf))).
+Proof.
+  intros H. destruct (iter_is_loads t alt (iter_new buf) (iter_new_ok buf H)) as (l & A & B & _).
+  exists l. split; [exact A|exact B].
+Qed.
